@@ -24,7 +24,8 @@ namespace avel {
 
         explicit Denominator(Denom64u denom):
             m(denom.m),
-            sh2(denom.sh2),
+            sh1(vec2x64u{std::uint64_t(denom.d != 1)}),
+            sh2(denom.d != 1 ? denom.sh2 : std::uint64_t(0)),
             d(denom.d) {}
 
         explicit Denominator(vec2x64u d):
